@@ -169,6 +169,12 @@ def suite_calc(ctx, case):
                      key='C18:split-independence')
     o3, _ = run_impl(mod, case)
     ctx.pred('calc', case, bool(np.all(np.abs(o3 - out) <= 2 * tol)), 'the same call repeated gives another result', key='C18:repeatable')
+    if not case['self']:
+        # omega_ab = omega_ba: the two selections handed over in the other order (theorem cross_swap_symmetric)
+        sw = dict(case, M1=case['M2'], M2=case['M1'], frames=[{'L': fr['L'], 'R1': fr['R2'], 'R2': fr['R1']} for fr in case['frames']])
+        o5, _ = run_impl(mod, sw)
+        ctx.pred('calc', case, o5.shape == out.shape and bool(np.all(np.abs(o5 - out) <= 2 * tol)), 'omega_ab differs from omega_ba (selections swapped): %r vs %r' % (out[:2].tolist(), o5[:2].tolist()),
+                 key='C18:order-independence')
     rng = np.random.RandomState(case['pseed'])
     s1 = rng.permutation(n1); s2 = rng.permutation(len(case['M1'] if case['self'] else case['M2']))
     o4, _ = run_impl(mod, case, perm=(s1, s2))
